@@ -698,6 +698,12 @@ func (c *specCtx) call(x *SExpr) *SVal {
 			c.fail("at(%s, ...): label not reached on this path", lbl)
 		}
 		return c.with(s).eval(x.Args[1])
+	case "wgcount":
+		// wgcount(wg): the tracked counter of the local sync.WaitGroup wg (see evalWaitGroupCall)
+		if v, ok := c.st.heap[wgGhostKey(x.Args[0].Name)]; ok {
+			return &SVal{T: v, Ty: types.Typ[types.Int]}
+		}
+		return &SVal{T: IntLit(0), Ty: types.Typ[types.Int]}
 	case "reached":
 		_, ok := c.st.snaps[x.Args[0].Name]
 		return &SVal{T: BoolLit(ok), Ty: boolT}
